@@ -25,11 +25,13 @@ ParamsOf(cfg, level, i) ==
 RECURSIVE ValuesOf(_, _)
 ValuesOf(cfg, i) ==
    IF i > 3 THEN <<>>
-   ELSE (IF cfg[i].p = "none" /\ cfg[i].o = "none" THEN <<>> ELSE <<V(Keys[i][1], Keys[i][2], cfg[i].t)>>) \o ValuesOf(cfg, i + 1)
+   ELSE (IF (cfg[i].p = "none" /\ cfg[i].o = "none") \/ cfg[i].t = "-" THEN <<>> ELSE <<V(Keys[i][1], Keys[i][2], cfg[i].t)>>) \o ValuesOf(cfg, i + 1)
 
-Mk(os, ds, acc, cfg, body, mu, xb, xq, rb) ==
-   [opSec |-> os, docSec |-> ds, accepts |-> acc, pparams |-> ParamsOf(cfg, "p", 1), oparams |-> ParamsOf(cfg, "o", 1),
+MkU(os, ds, acc, cfg, body, mu, xb, xq, rb, un) ==
+   [unsized |-> un, opSec |-> os, docSec |-> ds, accepts |-> acc, pparams |-> ParamsOf(cfg, "p", 1), oparams |-> ParamsOf(cfg, "o", 1),
     values |-> ValuesOf(cfg, 1), body |-> body, multi |-> mu, exclBody |-> xb, exclQuery |-> xq, authReadsBody |-> rb]
+
+Mk(os, ds, acc, cfg, body, mu, xb, xq, rb) == MkU(os, ds, acc, cfg, body, mu, xb, xq, rb, FALSE)
 
 NoParams == <<Inactive, Inactive, Inactive>>
 OneFailingQuery == <<[p |-> "none", o |-> "int", t |-> "x"], Inactive, Inactive>>
@@ -49,6 +51,17 @@ Init ==
         /\ (Tier = "quick" => (sec # "pass" /\ (xb => body = "fail")))
         /\ case = Mk(IF sec = "nosec" THEN Absent ELSE L(<< <<"A">> >>), <<>>, IF sec = "pass" THEN {"A"} ELSE {},
                      cfg, body, mu, xb, xq, FALSE)
+   \* requiredness focus: a (required) parameter, with or without a default, present / ill-typed / absent ("-")
+   \/ \E k1 \in [p : Kinds \cup {"reqint", "reqintd"}, o : Kinds \cup {"reqint", "reqintd"}, t : {"1", "x", "-"}],
+         k2 \in {Inactive, [p |-> "none", o |-> "int", t |-> "1"]}, mu \in BOOLEAN, xq \in BOOLEAN :
+        /\ ~(k1.p = "none" /\ k1.o = "none")
+        /\ case = Mk(Absent, <<>>, {}, <<k1, k2, Inactive>>, "none", mu, FALSE, xq, FALSE)
+   \* a body of unknown length (ContentLength 0 with a non-empty reader), with and without a security requirement
+   \/ \E body \in {"pass", "fail"}, sec \in {"nosec", "pass", "fail"}, mu \in BOOLEAN, xb \in BOOLEAN, rb \in BOOLEAN,
+         cfg \in {NoParams, OneFailingQuery} :
+        /\ (rb => sec # "nosec")
+        /\ case = MkU(IF sec = "nosec" THEN Absent ELSE L(<< <<"A">> >>), <<>>, IF sec = "pass" THEN {"A"} ELSE {},
+                      cfg, body, mu, xb, FALSE, rb, TRUE)
 Next == UNCHANGED case
 Spec == Init /\ [][Next]_case
 Emit == CSVWrite("%1$s", <<ToJson(case)>>, "cases.ndjson")
